@@ -3,6 +3,7 @@ package rules
 import (
 	"fmt"
 	"go/token"
+	"go/types"
 	"sort"
 	"strings"
 
@@ -395,14 +396,23 @@ func (c *Ctx) rememberCodec(au *ssa.Function) {
 			}
 		}
 	}
+	var sepAt Linear
+	var sepByte int64 = -1
+	okSep := false
+	// the raw token assembled piece by piece (append chain, bytes.Buffer writes):
+	// its layout is the sequence of the pieces
+	if t, sAt, sb, ok := c.tokenConcatLayout(gen); ok {
+		total, okTotal, sepAt, sepByte, okSep = t, true, sAt, sb, true
+		raw = nil
+	}
 	if !okTotal {
 		r.Unknown("C07.codec", gn, "make([]byte, n)", "-", "token buffer length is not a linear form over len(pid)")
 		return
 	}
-	var sepAt Linear
-	var sepByte int64 = -1
-	okSep := false
 	for _, b := range gen.Blocks {
+		if okSep {
+			break
+		}
 		for _, in := range b.Instrs {
 			st, ok := in.(*ssa.Store)
 			if !ok {
@@ -609,4 +619,166 @@ func (c *Ctx) oauthParamsReset(rule string) {
 			r.Unknown(rule, FuncName(st), "PutSession(oauth2_state)", "-", "Start does not store a state")
 		}
 	}
+}
+
+// tokenConcatLayout reads the layout of the raw remember token when the
+// writer assembles it from pieces: the value hashed by Sum512 is an append
+// chain or the Bytes() of a buffer written piece by piece. Returns the total
+// length and the separator's offset as linear forms, and the separator byte.
+func (c *Ctx) tokenConcatLayout(gen *ssa.Function) (total, sepAt Linear, sepByte int64, ok bool) {
+	sums := CallsTo(gen, fnSum512)
+	if len(sums) != 1 {
+		return
+	}
+	type part struct {
+		lin   Linear
+		konst int64
+		isSep bool
+	}
+	lenOf := func(v ssa.Value) (part, bool) {
+		v = stripConv(v)
+		if sl, isSl := v.(*ssa.Slice); isSl {
+			root := stripConv(sl.X)
+			if pt, isP := root.Type().Underlying().(*types.Pointer); isP {
+				if at, isA := pt.Elem().Underlying().(*types.Array); isA && sl.Low == nil && sl.High == nil {
+					// a one-byte varargs array holding a constant: the separator
+					if al, isAl := root.(*ssa.Alloc); isAl && at.Len() == 1 && al.Referrers() != nil {
+						for _, ref := range *al.Referrers() {
+							if ia, isIA := ref.(*ssa.IndexAddr); isIA && ia.Referrers() != nil {
+								for _, rr := range *ia.Referrers() {
+									if st, isSt := rr.(*ssa.Store); isSt {
+										if k, isC := ConstInt(st.Val); isC {
+											return part{lin: Linear{K: 1, Lens: map[ssa.Value]int64{}}, konst: k, isSep: true}, true
+										}
+									}
+								}
+							}
+						}
+					}
+					return part{lin: Linear{K: at.Len(), Lens: map[ssa.Value]int64{}}}, true
+				}
+			}
+			return part{}, false
+		}
+		if ms, isMS := v.(*ssa.MakeSlice); isMS {
+			if n, isC := ConstInt(ms.Len); isC {
+				return part{lin: Linear{K: n, Lens: map[ssa.Value]int64{}}}, true
+			}
+			return part{}, false
+		}
+		switch v.(type) {
+		case *ssa.Parameter:
+			return part{lin: Linear{Lens: map[ssa.Value]int64{v: 1}}}, true
+		}
+		return part{}, false
+	}
+	var parts []part
+	var walk func(v ssa.Value, d int) bool
+	walk = func(v ssa.Value, d int) bool {
+		v = stripConv(v)
+		if d > 12 {
+			return false
+		}
+		switch x := v.(type) {
+		case *ssa.Call:
+			if bi, isB := x.Call.Value.(*ssa.Builtin); isB && bi.Name() == "append" && len(x.Call.Args) == 2 {
+				if !walk(x.Call.Args[0], d+1) {
+					return false
+				}
+				p, okP := lenOf(x.Call.Args[1])
+				if !okP {
+					return false
+				}
+				parts = append(parts, p)
+				return true
+			}
+			if strings.HasSuffix(Callee(x), "bytes.Buffer).Bytes") && len(x.Call.Args) == 1 {
+				buf := x.Call.Args[0]
+				var writes []*ssa.Call
+				if buf.Referrers() == nil {
+					return false
+				}
+				for _, ref := range *buf.Referrers() {
+					call, isC := ref.(*ssa.Call)
+					if !isC || call == x {
+						continue
+					}
+					switch {
+					case strings.HasSuffix(Callee(call), "bytes.Buffer).WriteString"), strings.HasSuffix(Callee(call), "bytes.Buffer).WriteByte"), strings.HasSuffix(Callee(call), "bytes.Buffer).Write"):
+						writes = append(writes, call)
+					case strings.HasSuffix(Callee(call), "bytes.Buffer).Grow"), strings.HasSuffix(Callee(call), "bytes.Buffer).Reset"), strings.HasSuffix(Callee(call), "bytes.Buffer).Len"):
+					default:
+						if f := call.Call.StaticCallee(); f != nil && c.inRepo(f) && isPutHelper(f) {
+							continue
+						}
+						return false
+					}
+				}
+				sort.SliceStable(writes, func(i, j int) bool { return InstrDominates(writes[i], writes[j]) })
+				for i := 0; i+1 < len(writes); i++ {
+					if !InstrDominates(writes[i], writes[i+1]) {
+						return false
+					}
+				}
+				for _, w := range writes {
+					if !InstrDominates(w, x) {
+						return false
+					}
+					a := w.Call.Args[1]
+					if strings.HasSuffix(Callee(w), "WriteByte") {
+						k, isC := ConstInt(a)
+						if !isC {
+							return false
+						}
+						parts = append(parts, part{lin: Linear{K: 1, Lens: map[ssa.Value]int64{}}, konst: k, isSep: true})
+						continue
+					}
+					p, okP := lenOf(a)
+					if !okP {
+						return false
+					}
+					parts = append(parts, p)
+				}
+				return true
+			}
+			return false
+		case *ssa.MakeSlice:
+			n, isC := ConstInt(x.Len)
+			return isC && n == 0
+		case *ssa.Slice:
+			// buf[:0]
+			if x.High != nil {
+				if n, isC := ConstInt(x.High); isC && n == 0 {
+					return true
+				}
+			}
+			return false
+		case *ssa.Const:
+			return x.Value == nil
+		}
+		return false
+	}
+	if !walk(Arg(sums[0], 0), 0) || len(parts) < 3 {
+		return
+	}
+	total = Linear{Lens: map[ssa.Value]int64{}}
+	nSep := 0
+	for _, p := range parts {
+		if p.isSep {
+			nSep++
+			sepAt = Linear{K: total.K, Lens: map[ssa.Value]int64{}}
+			for k, v := range total.Lens {
+				sepAt.Lens[k] = v
+			}
+			sepByte = p.konst
+		}
+		total.K += p.lin.K
+		for k, v := range p.lin.Lens {
+			total.Lens[k] += v
+		}
+	}
+	if nSep != 1 {
+		return Linear{}, Linear{}, -1, false
+	}
+	return total, sepAt, sepByte, true
 }
